@@ -106,9 +106,9 @@ pub fn run(ctx: &mut Ctx) {
     }
     ctx.mark_exhaustive("code-by-position", "each of the 64 six-bit codes at each character position of each text field x backgrounds of '@', 'A', space, '?'");
 
-    let n = ctx.tier.pick(40_000, 1_500_000);
+    let n = ctx.tier.pick(96_000, 1_500_000);
     ctx.run_proptest("texts-filled", &STD, n, texts_filled(), check);
-    let n = ctx.tier.pick(15_000, 500_000);
+    let n = ctx.tier.pick(48_000, 500_000);
     ctx.run_proptest("random-assignments", &STD, n, payload_inputs(TEXT_TYPES.to_vec(), LenMode::Standard, Prop::C13, 8, 0.15), check);
     ctx.run_proptest("random-any-length", &STD, n, payload_inputs(vec![5, 12, 14], LenMode::Any, Prop::C13, 6, 0.15), check);
     for cfg in configs().into_iter().skip(1) {
